@@ -519,13 +519,16 @@ pub fn pgn(tier: usize, seed: u64, out: &mut Out) {
     // scripted games first: shapes random play practically never reaches
     //  * three knights that can all reach one square (file+rank disambiguation `Ng4f6+`), game left open / resigned
     //  * a game that ends by itself through threefold repetition (declared draw + result token on import)
-    const SCRIPTS: [(&str, &[&str]); 5] = [
+    const SCRIPTS: [(&str, &[&str]); 7] = [
         ("three_knights", &["h2h4", "g7g5", "h4g5", "h7h6", "g5h6", "a7a6", "h6h7", "a6a5", "h7g8=N", "a5a4", "Nb1c3", "b7b6",
             "Nc3e4", "b6b5", "Ng1f3", "c7c6", "Nf3e5", "c6c5", "Ne5g4", "d7d6", "Ng4f6"]),
         ("castle_check", &["f2f4", "e7e5", "f4e5", "f7f6", "e5f6", "Ng8h6", "f6g7", "Ke8f7", "g7h8=Q", "Qd8e7", "Ng1h3", "d7d6", "e2e3",
             "Bc8g4", "Bf1c4", "Bg4e6", "O-O", "Kf7g6", "Bc4e6", "Qe7e6"]),
         ("repetition", &["Ng1f3", "Ng8f6", "Nf3g1", "Nf6g8", "Ng1f3", "Ng8f6", "Nf3g1", "Nf6g8"]),
         // b-pawn capture where a bishop could capture on the same square: `bxc3` and `Bxc3` differ in case only
+        // the start position occurs for the second time, then every ending (a declined offer must not count as an occurrence)
+        ("two_occurrences", &["Ng1f3", "Ng8f6", "Nf3g1", "Nf6g8"]),
+        ("two_occurrences_b", &["Ng1f3", "Nb8c6", "Nb1c3", "Ng8f6", "Nf3g1", "Nc6b8", "Nc3b1", "Nf6g8"]),
         ("pawn_vs_bishop_w", &["d2d4", "Ng8f6", "Bc1d2", "Nf6e4", "Ng1f3", "Ne4c3", "b2c3", "d7d5"]),
         ("pawn_vs_bishop_b", &["Ng1f3", "d7d6", "Nf3d4", "Bc8d7", "Nd4c6", "b7c6", "e2e4"]),
     ];
